@@ -18,7 +18,7 @@ ASSUMPTIONS = ["lentil's physical constants differ from CODATA by < 1e-6 relativ
 EXHAUSTIVE = True
 PLAN = {'quick': {'gen': 4}, 'thorough': {'gen': 8, 'tests': 1, 'docs': 1}}
 REQUIRED_BUCKETS = ['wave-triple', 'flux-triple', 'spectrum.to:density', 'spectrum.to:unitless', 'spectrum.to:flux-roundtrip', 'spectrum.to:multi', 'spectrum.sample:unit', 'blackbody:converted',
-                    'planck:radiance', 'planck:exitance', 'planck:forms', 'planck:argument-types', 'planck:rayleigh-jeans', 'spectrum.to:refused-tail', 'same-numbers:mixed-units', 'wien', 'stefan-boltzmann', 'vega', 'spectrum.to:edit-in-place', 'spectrum.bin:unit', 'unit:aliases', 'spectrum:narrow-columns']
+                    'planck:radiance', 'planck:exitance', 'planck:forms', 'planck:argument-types', 'planck:rayleigh-jeans', 'spectrum.to:refused-tail', 'same-numbers:mixed-units', 'wien', 'stefan-boltzmann', 'vega', 'spectrum.to:edit-in-place', 'spectrum.bin:unit', 'unit:aliases', 'spectrum:narrow-columns', 'spectrum:narrow-columns:assigned', 'spectrum:narrow-columns:resampled', 'spectrum.to:blackbody-objects']
 REQUIRED_ANCHORS = ['anchor:Spectrum.to', 'anchor:planck_radiance', 'anchor:planck_exitance', 'anchor:vegaflux',
                     'anchor:Photlam.to', 'anchor:Micron.to']
 REQUIRED_ORACLES = ['wave:compose', 'wave:identity', 'wave:roundtrip', 'wave=si', 'flux:compose', 'flux:identity',
@@ -291,8 +291,27 @@ def workload(ctx, lentil):
         desc = {'narrow-columns': [np.dtype(wdt).name, str(v_n.dtype)], 'units': [u0, u1], 'valueunit': vu, 'n': npts}
         ctx.case(desc, ['spectrum:narrow-columns'])
         try:
-            a = R.Spectrum(w_n.copy(), v_n.copy(), waveunit=u0, valueunit=vu)
-            b = R.Spectrum(w_n.astype(float), v_n.astype(float), waveunit=u0, valueunit=vu)
+            route = (i // 4) % 3
+            if route == 0:
+                a = R.Spectrum(w_n.copy(), v_n.copy(), waveunit=u0, valueunit=vu)
+                b = R.Spectrum(w_n.astype(float), v_n.astype(float), waveunit=u0, valueunit=vu)
+            elif route == 1:
+                # the narrow columns reach an existing spectrum by attribute assignment
+                a = R.Spectrum(w_n.astype(float) * 1.0, np.ones(npts), waveunit=u0, valueunit=vu)
+                a.wave = w_n.copy()
+                a.value = v_n.copy()
+                b = R.Spectrum(w_n.astype(float), v_n.astype(float), waveunit=u0, valueunit=vu)
+                ctx.bucket('spectrum:narrow-columns:assigned')
+            else:
+                # ... or as the grid of a resample()
+                w_d = np.linspace(float(w_n[0]), float(w_n[-1]), npts + 3)
+                v_d = rng.integers(1, 200, size=npts + 3) / 8.0
+                a = R.Spectrum(w_d.copy(), v_d.copy(), waveunit=u0, valueunit=vu)
+                b = R.Spectrum(w_d.copy(), v_d.copy(), waveunit=u0, valueunit=vu)
+                a.resample(w_n.copy(), waveunit=u0)
+                b.resample(w_n.astype(float), waveunit=u0)
+                ctx.bucket('spectrum:narrow-columns:resampled')
+            desc['route'] = ['constructor', 'assignment', 'resample'][route]
             q = np.asarray(b.wave, float) * sm.wave_factor(u0, u1)          # its own wavelengths, end samples included, in u1
             sa, sb = np.asarray(a.sample(q, waveunit=u1), float), np.asarray(b.sample(q, waveunit=u1), float)
             ctx.close('to:values', sa, sb, 1e-12, 'narrow-columns|sample-other-unit',
@@ -559,5 +578,26 @@ def workload(ctx, lentil):
             ctx.close('vega', np.array([bb.value[1]]), np.array([E0 * 10 ** (-0.4 * mag)]), 1e-10, 'vegamag|zero-point',
                       'Blackbody.vegamag does not hit the zero-point flux at the band wavelength', {'band': band, 'wu': wu, 'mag': mag},
                       scale=E0 * 10 ** (-0.4 * mag))
+            # the conversions of the first clauses apply to every kind of spectrum object: a Vega-scaled blackbody (and a plain one)
+            # converted to another flux unit is the same physical spectrum, through one step or two, and comes back on the way home
+            plain = R.Blackbody(grid, T, waveunit=wu)
+            for kind_, obj in (('vegamag', bb), ('blackbody', plain)):
+                wm_ = np.asarray(obj.wave, float) * sm.WAVE_M[wu]
+                hcm = float(R.H) * float(R.C)        # (the photon energy with the module's own constants: to rounding)
+                si_ref = sm.flux_to_wlam_si(np.asarray(obj.value, float) / sm.WAVE_M[wu], 'photlam', wm_, hc=hcm)
+                v_ref = np.asarray(obj.value, float).copy()
+                for v1 in ('wlam', 'flam'):
+                    v2 = 'flam' if v1 == 'wlam' else 'wlam'
+                    o1 = obj.copy()
+                    o1.to(v1)
+                    si1 = sm.flux_to_wlam_si(np.asarray(o1.value, float) / sm.WAVE_M[wu], v1, wm_, hc=hcm)
+                    o1.to(v2)
+                    si2 = sm.flux_to_wlam_si(np.asarray(o1.value, float) / sm.WAVE_M[wu], v2, wm_, hc=hcm)
+                    o1.to('photlam')
+                    ctx.bucket('spectrum.to:blackbody-objects')
+                    ctx.close('to:flux-roundtrip', np.r_[si1 / si_ref, si2 / si_ref, np.asarray(o1.value, float) / v_ref], np.ones(9), 1e-12,
+                              f'to|{kind_}-object|flux',
+                              'a blackbody object converted to another flux unit (one step, two steps, and back) is no longer the same physical spectrum',
+                              {'band': band, 'wu': wu, 'via': [v1, v2], 'kind': kind_}, scale=1.0)
         except Exception as e:
             ctx.check(False, 'vega', f'vegamag|raises={type(e).__name__}', str(e), {'band': band, 'wu': wu})
